@@ -268,10 +268,12 @@ void* _mi_heap_realloc_zero(mi_heap_t* heap, void* p, size_t newsize, bool zero)
   }
   void* newp = mi_heap_malloc(heap,newsize);
   if mi_likely(newp != NULL) {
-    if (zero && newsize > size) {
-      // also set last word in the previous allocation to zero to ensure any padding is zero-initialized
-      const size_t start = (size >= sizeof(intptr_t) ? size - sizeof(intptr_t) : 0);
-      _mi_memzero((uint8_t*)newp + start, newsize - start);
+    if (zero) {
+      // also set last word in the previous allocation to zero to ensure any padding is zero-initialized,
+      // and zero up to the usable size of the new block so it stays zero when it later grows in place.
+      const size_t nsize = mi_usable_size(newp);
+      const size_t start = (newsize > size ? (size >= sizeof(intptr_t) ? size - sizeof(intptr_t) : 0) : newsize);
+      if (nsize > start) { _mi_memzero((uint8_t*)newp + start, nsize - start); }
     }
     else if (newsize == 0) {
       ((uint8_t*)newp)[0] = 0; // work around for applications that expect zero-reallocation to be zero initialized (issue #725)
